@@ -187,4 +187,12 @@ def units(ctx):
         'accepts): positional / keyword from every split point / empty slot '
         'vs omitted default / call(name, args, kwargs) / function vs method '
         'form all give the same result or error class', timeout=900))
+    us.append(bounded_unit(
+        'bounded:c05-signatures', 'c05_signatures.py',
+        'BOUNDED: 288 Python signature shapes (0..2 positional parameters, '
+        'defaults None / 0 / str on a suffix, *args, keyword-only with and '
+        'without default, **kwargs): the recorded FunctionDefinition agrees '
+        'with inspect.signature (default, position, inferred type, keyword '
+        'name under both conventions in either registration order); values '
+        'of any type are accepted in the *args region'))
     return us
